@@ -124,7 +124,16 @@ func (d *Deb) Package(info *nfpm.Info, deb io.Writer) (err error) { // nolint: f
 
 	debianBinary := []byte("2.0\n")
 
-	w := ar.NewWriter(deb)
+	// ar.Writer drops the error of the padding byte it writes after a member
+	// of odd size, so remember write errors of the destination ourselves
+	dst := &errRecorder{Writer: deb}
+	defer func() {
+		if err == nil && dst.err != nil {
+			err = fmt.Errorf("cannot write deb file: %w", dst.err)
+		}
+	}()
+
+	w := ar.NewWriter(dst)
 	if err := w.WriteGlobalHeader(); err != nil {
 		return fmt.Errorf("cannot write ar header to deb file: %w", err)
 	}
@@ -313,6 +322,20 @@ func addArFile(w *ar.Writer, name string, body []byte, date time.Time) error {
 	}
 	_, err := w.Write(body)
 	return err
+}
+
+// errRecorder remembers the first error of the underlying writer.
+type errRecorder struct {
+	io.Writer
+	err error
+}
+
+func (e *errRecorder) Write(p []byte) (int, error) {
+	n, err := e.Writer.Write(p)
+	if err != nil && e.err == nil {
+		e.err = err
+	}
+	return n, err
 }
 
 type nopCloser struct {
